@@ -36,8 +36,11 @@ type lcStep struct {
 }
 
 // build the accessory set of a structure token
-func lcAccessories(s string) (*accessory.Accessory, []*accessory.Accessory, *accessory.Switch) {
+// The variant makes the accessory database (and with it the stored configuration hash) different from case to case, so
+// that the rules are exercised over many databases and not over two fixed ones; within a case it is fixed.
+func lcAccessories(s string, variant int) (*accessory.Accessory, []*accessory.Accessory, *accessory.Switch) {
 	sw := accessory.NewSwitch(accessory.Info{Name: "Lifecycle"})
+	sw.Switch.On.Description = fmt.Sprintf("variant %d", variant)
 	switch s {
 	case "s1":
 		return sw.Accessory, nil, sw
@@ -48,6 +51,45 @@ func lcAccessories(s string) (*accessory.Accessory, []*accessory.Accessory, *acc
 		return sw.Accessory, []*accessory.Accessory{lb.Accessory}, sw
 	}
 	return sw.Accessory, nil, sw
+}
+
+// lcPickVariant chooses the database variant of a case so that the stored configuration hash (16 raw bytes in a file) falls
+// into one of the classes that matter for a persisted representation: arbitrary, or beginning / ending with white space
+// or with a zero byte.  hc's own ContentHash is used to select the input only, never as an oracle.
+func lcPickVariant(rng *rand.Rand, id int) int {
+	isWS := func(c byte) bool { return c == ' ' || (c >= 9 && c <= 13) }
+	want := id % 6
+	which := []string{"s1", "s2"}[(id/6)%2]
+	for try := 0; try < 20000; try++ {
+		v := rng.Intn(1 << 30)
+		if want == 0 {
+			return v
+		}
+		a, as, _ := lcAccessories(which, v)
+		c := accessory.NewContainer()
+		c.AddAccessory(a)
+		for _, x := range as {
+			c.AddAccessory(x)
+		}
+		h := c.ContentHash()
+		ok := false
+		switch want {
+		case 1:
+			ok = isWS(h[0])
+		case 2:
+			ok = isWS(h[len(h)-1])
+		case 3:
+			ok = h[0] == 0
+		case 4:
+			ok = h[len(h)-1] == 0
+		case 5:
+			ok = h[0] == '\n' || h[len(h)-1] == '\n'
+		}
+		if ok {
+			return v
+		}
+	}
+	return rng.Intn(1 << 30)
 }
 
 func lcObserve(tr *Transport) J {
@@ -74,6 +116,7 @@ func runLifecycle(b Beh, seed int64) ([]J, error) {
 	for _, c := range []string{"a", "b"} {
 		ids[c] = ref.NewIdentity("ctrl-"+c, rndFunc(rng))
 	}
+	variant := lcPickVariant(rng, b.ID)
 	var tr *Transport
 	var sw *accessory.Switch
 	defer func() {
@@ -107,7 +150,7 @@ func runLifecycle(b Beh, seed int64) ([]J, error) {
 				o["skipped"] = true
 				break
 			}
-			a, as, swx := lcAccessories(s.X)
+			a, as, swx := lcAccessories(s.X, variant)
 			t, err := startTransport(dir, "00102003", false, a, as...)
 			if err != nil {
 				return nil, err
